@@ -25,6 +25,7 @@ GEN_EXPR = "prqlc/prqlc/src/sql/gen_expr.rs"
 ANCHOR = "prqlc/prqlc/src/sql/pq/anchor.rs"
 FLATTEN = "prqlc/prqlc/src/semantic/resolver/flatten.rs"
 LOWERING = "prqlc/prqlc/src/semantic/lowering.rs"
+PREPROCESS = "prqlc/prqlc/src/sql/pq/preprocess.rs"
 GENERIC = "prqlc/prqlc/src/ir/generic.rs"
 PARSER_GENERIC = "prqlc/prqlc-parser/src/generic.rs"
 OPERATORS = "prqlc/prqlc/src/sql/operators.rs"
@@ -383,6 +384,41 @@ def extract_anchor():
             "filter_no_agg": mf.group(1), "filter_agg": mf.group(2), "sort": msrt.group(1)}
 
 
+# ----------------------------------------------------------------------------- preprocess.rs reorder
+def extract_reorder():
+    """which preceding transforms a Compute is pulled in front of (reorder): the arms of `should_swap`"""
+    src = read(PREPROCESS)
+    m = mask(src)
+    s, e = block_after(src, m, r"fn\s+reorder\s*\([^{]*\{")
+    body = src[s:e]
+    mb = mask(body)
+    ms_, me_ = block_after(body, mb, r"let\s+should_swap\s*=\s*match\s+prev\s*\{")
+    arms = match_arms(body, mb, ms_, me_)
+    out = {"sort": None, "take": None, "other": None, "never": None}
+    for pat, b in arms:
+        pat, b = norm(pat), norm(b)
+        if pat == "SqlTransform::From(_) | SqlTransform::Join { .. } | Super(Compute(_))" and b == "false":
+            out["never"] = True
+        elif pat == "Super(Sort(_))" and b in ("true", "false"):
+            out["sort"] = b == "true"
+        elif pat == "_" and b in ("true", "false"):
+            out["other"] = b == "true"
+        elif pat == "Super(Take(_))" and b in ("true", "false"):
+            out["take"] = ("all", None) if b == "true" else ("none", None)
+        else:
+            mt = re.fullmatch(r"Super\(Take\(_\)\) if infer_complexity\(compute\) (==|<=|<|!=|>=|>) Complexity::(\w+)", pat)
+            if mt and b == "true" and mt.group(2) in CX:
+                out["take"] = (mt.group(1), mt.group(2))
+            else:
+                raise ExtractError("reorder: arm not understood: %r => %r" % (pat[:100], b[:40]))
+    if out["never"] is None or out["sort"] is None or out["other"] is None or out["take"] is None:
+        raise ExtractError("reorder: should_swap no longer has the arms From/Join/Compute, Sort, Take, _")
+    rest = norm(body)
+    if not re.search(r"if should_swap \{ pipeline\.swap\(compute_i, prev_i\); \} else \{ break; \}", rest):
+        raise ExtractError("reorder: the swap loop changed")
+    return out
+
+
 # ----------------------------------------------------------------------------- flatten.rs / lowering.rs (shapes)
 def extract_propagation():
     fl = norm(read(FLATTEN))
@@ -415,6 +451,7 @@ def extract():
     info["gen_expr"] = extract_gen_expr()
     info["anchor"] = extract_anchor()
     info["propagation"] = extract_propagation()
+    info["reorder"] = extract_reorder()
     return info
 
 
@@ -483,6 +520,15 @@ def generate():
           "  | UHaving => filter_allows false\n  | UGroupKey => requirement_default\n  | UAggArg => compute_allows aggregation_complexity\n"
           "  | UWindowArg => compute_allows windowed_complexity\n  | UPlainExpr => compute_allows CPlain\n  | UOrderBy => sort_allows\n"
           "  | UJoinOn => requirement_default\n  | UProjection => cx_highest\n  end.\n\n")
+    ro = info["reorder"]
+    op, cxn = ro["take"]
+    cond = {"all": "true", "none": "false", "==": "cx_eqb c %s", "!=": "negb (cx_eqb c %s)", "<=": "cx_le complexity_order c %s",
+            "<": "cx_le complexity_order c %s && negb (cx_eqb c %s)", ">=": "cx_le complexity_order %s c", ">": "cx_le complexity_order %s c && negb (cx_eqb c %s)"}[op]
+    if cxn is not None:
+        cond = cond.replace("%s", CX[cxn])
+    v += "(* sql/pq/preprocess.rs reorder: is a Compute of complexity c pulled in front of a preceding Take / Sort / anything else? *)\n"
+    v += "Definition reorder_before_take (c : cx) : bool := %s.\n" % cond
+    v += "Definition reorder_before_sort : bool := %s.\nDefinition reorder_before_other : bool := %s.\n\n" % ("true" if ro["sort"] else "false", "true" if ro["other"] else "false")
     v += "(* semantic/resolver/flatten.rs and semantic/lowering.rs have the modelled shape (group -> partition, window -> frame, sort -> order; Compute.window := current window) *)\nDefinition propagation_shape_ok : bool := true.\n"
     gen_write("GenWindow", v)
     return info
